@@ -14,7 +14,7 @@ const learnPath = "evylang.dev/evy/learn/pkg/learn"
 
 var ruleCrypto = &Rule{
 	ID:    "R-CRYPTO",
-	Doc:   "sealed answers (learn module): the symmetric layer is an AEAD (cipher.NewGCM with Seal/Open, no stream/CBC mode); every error of the decode/decrypt chain is tested and returned before the value is used; the envelope is sliced only behind the length checks; hybridEncrypt and hybridDecrypt agree on hash, label, nonce, additional data and header layout; the crypto functions keep no package-level state; verifyChoiceMatch has both rejection conditions on the exact outputs; match verification is decided by isMatchQuestion",
+	Doc:   "sealed answers (learn module): the symmetric layer is an AEAD (cipher.NewGCM with Seal/Open, no stream/CBC mode); every error of the decode/decrypt chain is tested and returned before the value is used; the envelope is sliced only behind a covering `len <` check (in hybridDecrypt or the helper it hands the envelope to) and is rejected for its length only by `len < bound` with a bound it is sliced at; hybridEncrypt and hybridDecrypt agree on hash, label, nonce, additional data and header layout; the crypto functions keep no package-level state; verifyChoiceMatch has both rejection conditions on the exact outputs; match verification is decided by isMatchQuestion",
 	Floor: 25,
 	Run:   runCrypto,
 }
